@@ -144,16 +144,11 @@ func runSudo(r *hx.R, n int, w *hx.W, _ []string) error {
 				case "oracleParams":
 					p, _ := nibiru.OracleKeeper.Params.Get(ctx)
 					msg := &oracletypes.MsgEditOracleParams{Sender: sender, Params: &oracletypes.OracleParamsMsg{VotePeriod: p.VotePeriod + 1}}
-					// a message without its optional params field passes ValidateBasic: from a sender without permission it is
-					// refused like any other (from one WITH permission the handler dereferences nil — not sent here)
-					if sd, err := nibiru.SudoKeeper.Sudoers.Get(ctx); err == nil && r.Chance(1, 4) {
-						authorised := strings.EqualFold(sd.Root, sender)
-						for _, c := range sd.Contracts {
-							authorised = authorised || strings.EqualFold(c, sender)
-						}
-						if !authorised {
-							msg.Params = nil
-						}
+					// a message without its optional params field passes ValidateBasic: the gate comes first, and with permission there
+					// is nothing to apply (an invalid request) — the handler must not dereference the missing payload
+					if r.Chance(1, 4) {
+						msg.Params = nil
+						op = fmt.Sprintf("sudo gatednil %s %s", t, sender)
 					}
 					res = run(msg.ValidateBasic, func(c sdk.Context) error { _, err := oracleMs.EditOracleParams(c, msg); return err })
 				case "inflationParams":
